@@ -33,7 +33,7 @@ Proof.
     unfold links_of. simpl. rewrite app_nil_r in *. now rewrite Hpre.
   - apply IH in Hrest. destruct Hrest as (p & Hne & Hp & Hl).
     exists (e :: p). repeat split; try assumption; try discriminate.
-    unfold links_of in *. simpl. rewrite Hl. now rewrite Hpre at 2.
+    unfold links_of in *. simpl. rewrite Hl. symmetry. exact Hpre.
 Qed.
 
 Theorem chain_check_sound g s t L : chain_check g s t L = true -> is_route g s t L.
@@ -71,8 +71,9 @@ Section Cert.
     (forall s t, In s (range n) -> In t (range n) -> s <> t -> d s t <> -1 ->
         exists e, In e g /\ ev e = t /\ d0 s (eu e) <> -1 /\ d s t = d0 s (eu e) + elen e).
   Proof.
-    unfold cert_ok in Hok. repeat (apply andb_true_iff in Hok; destruct Hok as [Hok ?]).
-    rename H into HB, H0 into HA, H1 into HR. rename Hok into HE.
+    pose proof Hok as K. unfold cert_ok in K.
+    apply andb_true_iff in K. destruct K as [K HB]. apply andb_true_iff in K. destruct K as [K HA].
+    apply andb_true_iff in K. destruct K as [HE HR].
     rewrite forallb_forall in HE, HR, HA, HB.
     repeat split.
     - specialize (HE e H). lia.
@@ -91,11 +92,6 @@ Section Cert.
         simpl in HB. exact HB. }
       apply existsb_exists in X. destruct X as (e & He & X). exists e. unfold d, d0. repeat split; try assumption; lia.
   Qed.
-
-  (** lower bound: whatever declared routes are chained from s, the entry is not larger *)
-  Lemma cert_lower s : In s (range n) -> forall p x K, d0 s x <> -1 -> d0 s x <= K -> 0 <= K ->
-    is_path g x p (* to *) (* t *) (* generalised below *) x \/ True -> True.
-  Proof. trivial. Qed.
 
   Lemma d0_nonneg s x : In s (range n) -> In x (range n) -> d0 s x <> -1 -> 0 <= d0 s x.
   Proof.
